@@ -117,6 +117,14 @@ def check_hex_variants(ctx, t, a, rng):
                 d = Message.from_hex(hx, sep=sep)
             ctx.check('from_hex(sep)', d == m, t, lambda: case(['from_hex', sep]),
                       lambda: repr(d)[:200])
+            for tm in (7, 0.25):
+                kw = {} if sep in (' ', '') else {'sep': sep}
+                d = Message.from_hex(hx, time=tm, **kw)
+                ctx.check('from_hex(sep, time)', _eq_typed(d, t, a, tm), 'from_hex-time:' + t,
+                          lambda: case(['from_hex', sep, tm]), lambda: repr(d)[:200])
+                d = Message.from_hex(hx, tm, **kw)          # time given positionally
+                ctx.check('from_hex(sep, time)', _eq_typed(d, t, a, tm), 'from_hex-time:' + t,
+                          lambda: case(['from_hex', sep, tm, 'positional']), lambda: repr(d)[:200])
         except Exception as exc:
             ctx.fail('from_hex(sep) raised', t, lambda: case(['from_hex', sep]),
                      f'{type(exc).__name__}: {exc}')
@@ -193,7 +201,13 @@ def history(ctx, t, steps, seed):
     for i in range(steps):
         enc1 = rng.choice(('bytes', 'bin', 'hex', 'len', 'none'))
         if enc1 != 'none':
-            getattr(m, enc1 if enc1 != 'len' else '__len__')()
+            out = getattr(m, enc1 if enc1 != 'len' else '__len__')()
+            # what a caller does with the returned container is its own business
+            if enc1 == 'bytes':
+                out += [1, 2, 3]
+                out[0] = 0
+            elif enc1 == 'bin':
+                out.extend(b'\x01\x02')
         names = midi1.ATTRS[t]
         if names:
             n = rng.choice(names)
